@@ -14,8 +14,8 @@ func init() {
 			"(ii) mutants of those bytes (random draws plus a systematic catalogue of every mutation kind and every string field x forbidden content class per type and version): truncation at every offset, remaining length -1/+1/0/max, non-canonical and 5..7-byte length fields, flag/type bits, bit flips, inserts/deletes/splices/glued packets, duplicated/misplaced/unknown/truncated properties, property-length edits, ill-formed UTF-8, U+0000, control characters, invalid topic names and filters, QoS 3, wrong protocol name/level, packet id 0, invalid reason codes; " +
 			"(iii) raw random byte strings of length 0..64 with biased first byte and length field; (iv) bombs: at most 8 bytes declaring up to 268,435,455 remaining bytes or huge string/property lengths. " +
 			"Monitors per decode: recover() for panics, 10 s watchdog, framing through a counting bufio.Reader with a PINGREQ trailer, TotalAlloc delta (serial section only, limit 64 KiB + 32 x bytes supplied), field-wise comparison with mqttx whenever both decoders accept, Pack -> gmqtt-decode and Pack -> mqttx-decode round trips, TotalBytes after Unpack and Pack. " +
-			"Also: every generated value built directly as gmqtt struct (incl. server->client only values such as PUBLISH with Subscription Identifiers) -> Pack -> mqttx-decode; gmqtt.Message.TotalBytes vs packed length for random messages and lengths around 127/128, 16383/16384, 2097151/2097152; the four validity predicates on all strings of <= 5 (quick) / 6 (thorough) symbols over {a / + # $ NUL e-acute 0xff}, on $share-prefixed strings and on a list of special code points. " +
-			"evaluations = executed inputs (decode inputs + constructed values + messages + predicate strings). A case is non-trivial if the decoder accepted the input, a well-formed value round-tripped, a message size matched, or a reference predicate accepts the string; distinct by input bytes.",
+			"Also: session streams CONNECT(v) + packet + PINGREQ through one Reader initially set to another version (CONNECT must decide the version); every generated value built directly as gmqtt struct (incl. server->client only values such as PUBLISH with Subscription Identifiers) -> Pack -> mqttx-decode; gmqtt.Message.TotalBytes vs packed length for random messages and lengths around 127/128, 16383/16384, 2097151/2097152; the four validity predicates on all strings of <= 5 (quick) / 6 (thorough) symbols over {a / + # $ NUL e-acute 0xff}, on $share-prefixed strings and on a list of special code points. " +
+			"evaluations = executed inputs (decode inputs + session streams + constructed values + messages + predicate strings). A case is non-trivial if the decoder accepted the input, a well-formed value round-tripped, a message size matched, or a reference predicate accepts the string; distinct by input bytes.",
 		assumptions: []string{
 			"mqttx (written from the OASIS texts, sharing no code with pkg/packets) decides well-formedness and field values; refmodel and mqttx predicates are compared with each other on every string (disagreement = inconclusive)",
 			"well-formed domain for gmqtt's decoder excludes its documented server-role choices: PUBLISH carrying Subscription Identifiers (packets.ValidProperties: 'valid for server to unpack'), v3.x CONNECT with empty client id and Clean Session 0 (decoder answers Identifier Rejected itself), and strings with code points a receiver MAY refuse (U+0001..1F, U+007F..9F, non-characters; MQTT 1.5.4); those are only exercised in the encode direction or as mutants",
